@@ -117,6 +117,7 @@ def rule_extras(chk):
     # default false
     init = ctx.func("_validation", "_MessageSerializer.__init__")
     d = dict(zip(reversed(init.pos_params), reversed(init.node.args.defaults)))
+    d.update({a.arg: v for a, v in zip(init.node.args.kwonlyargs, init.node.args.kw_defaults) if v is not None})
     chk.req("allow_additional_fields" in d and isinstance(d["allow_additional_fields"], ast.Constant) and d["allow_additional_fields"].value is False, "C14.extras",
             "_MessageSerializer.__init__:extras-off-by-default", chk.where(init), good="default False", fail="allow_additional_fields does not default to False")
 
@@ -311,8 +312,12 @@ def rule_emit(chk):
                     good="library-added keys %s are implicit fields of the kind's serializer or reserved" % sorted(libkeys),
                     fail="the emitter certainly adds %s, but the matching serializer only knows %s: correct use would fail validation" % (sorted(libkeys - allowed), sorted(allowed)))
     mt = ctx.func("_validation", "MessageType.__init__")
-    t = " ".join(unparse(s) for s in mt.node.body)
-    chk.req("Field.forValue(MESSAGE_TYPE_FIELD, message_type" in t, "C14.emit", "MessageType.__init__:implicit-message_type-field", chk.where(mt), good="message_type is an implicit fixed-value field", fail="MessageType no longer declares the implicit message_type field")
+    okmt = False
+    for n in iter_own_nodes(mt.node):
+        if isinstance(n, ast.Call) and isinstance(n.func, ast.Attribute) and n.func.attr in ("forValue", "for_value") and len(n.args) >= 2 \
+                and ctx.try_fold(mt, n.args[0]) == (True, MT) and isinstance(n.args[1], ast.Name) and n.args[1].id == mt.pos_params[1]:
+            okmt = True
+    chk.req(okmt, "C14.emit", "MessageType.__init__:implicit-message_type-field", chk.where(mt), good="message_type is an implicit fixed-value field", fail="MessageType no longer declares the implicit message_type field")
 
 
 def rule_json(chk):
